@@ -191,10 +191,77 @@ pub fn promotion_ending(rng: &mut Rng) -> Pos {
     }
 }
 
+/// A promotion ending in which promoting to a queen stalemates the defender (so another
+/// promotion is the right one), stepped back by one defender move so that the promotion lies
+/// below the root of a search. Falls back to a plain promotion ending.
+pub fn stalemate_trick_ending(rng: &mut Rng) -> Pos {
+    for _ in 0..400 {
+        let p = promotion_ending(rng);
+        // the side that owns the pawn
+        let owner = match p.sq.iter().flatten().find(|(pc, _)| *pc == P::Pawn) {
+            Some((_, side)) => *side,
+            None => continue,
+        };
+        let at = p.with_stm(owner);
+        if at.in_check(owner.other()) {
+            continue;
+        }
+        let trick = at.legal_moves().iter().any(|m| {
+            m.promo == Some(P::Queen) && {
+                let n = at.make(m);
+                !n.has_legal_move() && !n.in_check(n.stm)
+            }
+        });
+        if !trick {
+            continue;
+        }
+        // step back: the defender's king came from an adjacent square
+        let dk = match at.king_sq(owner.other()) {
+            Some(k) => k,
+            None => continue,
+        };
+        let mut cands: Vec<Pos> = Vec::new();
+        for df in -1..=1i8 {
+            for dr in -1..=1i8 {
+                if let Some(from) = mk_sq(file_of(dk) + df, rank_of(dk) + dr) {
+                    if from == dk || at.sq[from as usize].is_some() {
+                        continue;
+                    }
+                    let mut prev = at.clone();
+                    prev.sq[dk as usize] = None;
+                    prev.sq[from as usize] = Some((P::King, owner.other()));
+                    prev.stm = owner.other();
+                    if prev.is_consistent() && prev.legal_moves().iter().any(|m| m.from == from && m.to == dk) {
+                        cands.push(prev);
+                    }
+                }
+            }
+        }
+        if !cands.is_empty() {
+            return cands[rng.below(cands.len())].clone();
+        }
+        return at;
+    }
+    promotion_ending(rng)
+}
+
+/// A random sparse set-up in which the side to move has exactly one legal move.
+pub fn single_reply_position(rng: &mut Rng) -> Pos {
+    for _ in 0..2000 {
+        let p = random_setup(rng, *rng.clone().pick(&[3usize, 4, 5, 6]));
+        if p.legal_moves().len() == 1 {
+            return p;
+        }
+    }
+    Pos::from_fen("k7/8/8/8/8/8/1r6/K7 w - - 0 1").unwrap()
+}
+
 #[derive(Clone, Copy, PartialEq, Eq, Debug)]
 pub enum StartKind {
     /// checkmated / stalemated / mate-in-one / single-reply positions
     Terminal,
+    /// generated: exactly one legal move
+    SingleReply,
     Initial,
     Suite,
     Special,
@@ -217,6 +284,7 @@ pub fn choose_start(rng: &mut Rng, weights: &[(StartKind, usize)]) -> (StartKind
     }
     let mut pos = match kind {
         StartKind::Terminal => Pos::from_fen(*rng.pick(&TERMINAL_FENS[..])).unwrap(),
+        StartKind::SingleReply => single_reply_position(rng),
         StartKind::Initial => Pos::startpos(),
         StartKind::Suite => Pos::from_fen(*rng.pick(&suite_fens()[..])).unwrap(),
         StartKind::Special => Pos::from_fen(*rng.pick(&SPECIAL_FENS[..])).unwrap(),
@@ -246,6 +314,8 @@ pub enum Policy {
     Shuffle,
     /// favours checks and moves that reduce the opponent's mobility (drives towards mates)
     Hunt,
+    /// favours moves that leave the opponent exactly one (or very few) legal replies
+    Squeeze,
     /// wanders with quiet piece moves and, whenever possible, steps into a placement that was
     /// already seen with the *other* side to move (tempo loss / triangulation): the look-alike
     /// that every cache keyed by a side-blind position key confuses
@@ -370,6 +440,15 @@ pub fn choose_move(rng: &mut Rng, pos: &Pos, legal: &[Mv], policy: Policy, last_
                 } else {
                     1
                 }
+            })
+            .collect(),
+        Policy::Squeeze => legal
+            .iter()
+            .map(|m| match pos.make(m).legal_moves().len() {
+                0 => 2,
+                1 => 600,
+                2 | 3 => 40,
+                _ => 1,
             })
             .collect(),
         Policy::Hunt => legal
